@@ -191,7 +191,10 @@ bool splinetable<Alloc>::read_fits_core_impl(fitsfile* fits, const std::string& 
 		fits_get_hduaddrll(fits, &headstart, &datastart, &dataend, &status);
 		//data are read in whole 2880 byte FITS records
 		const uint64_t record=2880;
+		//the data unit as declared by this header (which includes any random
+		//group or heap parameters) must itself lie inside the buffer
 		if(status!=0 || datastart<0 || (uint64_t)datastart>fileSize
+		   || dataend<datastart || (uint64_t)dataend>fileSize
 		   || elements>(fileSize-(uint64_t)datastart)/elementSize
 		   || ((elements*elementSize+record-1)/record)*record>fileSize-(uint64_t)datastart)
 			throw std::runtime_error("Data declared in header extends beyond the end of "+filePath);
